@@ -484,6 +484,7 @@ impl NodeStream {
             return false;
         }
         self.steps += 1;
+        let with_datagram = datagram.is_some();
         match verif::step(self.addr, datagram) {
             StepOutcome::Parked => {}
             StepOutcome::Panicked => {
@@ -498,6 +499,9 @@ impl NodeStream {
             StepOutcome::Stuck => {
                 self.alive = false;
                 out.violation("C06", "actor-stuck", "the actor thread did not come back to recv_from (infinite loop or blocked)".into());
+                if with_datagram {
+                    out.violation("C05", "datagram-stalls-node", "the actor thread did not come back to recv_from after it was handed a datagram: the node no longer answers pings or serves its own API".into());
+                }
             }
         }
         self.collect_outbox();
@@ -1485,6 +1489,11 @@ pub struct Driver<'a> {
     pub known: std::collections::HashSet<String>,
     /// the address the peers report seeing the node at (default: its real address)
     pub report_ip: Option<SocketAddrV4>,
+    /// what accompanies every request the node sends to a live peer, one millisecond after it (before the
+    /// peer's own reply): 1 a bare response under the same transaction id from ANOTHER address, 2 a ping REQUEST
+    /// of the peer itself under the same transaction id, 3 (get requests only) a PUT request of the peer for the
+    /// requested target carrying a forged value, under the same transaction id
+    pub shadow: u8,
     /// first transaction id of the node's socket (default 0)
     pub tid0: Option<u32>,
     /// the node's request filter vetoes every request from this address
@@ -1495,7 +1504,7 @@ pub struct Driver<'a> {
 
 impl<'a> Driver<'a> {
     pub fn new(out: &'a mut Out, seed: u64, net: VNet) -> Self {
-        Driver { s: NodeStream::new(), out, rng: Rng::new(seed), net, queue: vec![], latency: 5 * MS, seq: 0, next_call: 0, drop_pct: 0, dup_pct: 0, late_pct: 0, reachable: false, known: Default::default(), report_ip: None, tid0: None, deny: None, delivered: vec![], boot_bad: vec![] }
+        Driver { s: NodeStream::new(), out, rng: Rng::new(seed), net, queue: vec![], latency: 5 * MS, seq: 0, next_call: 0, drop_pct: 0, dup_pct: 0, late_pct: 0, reachable: false, known: Default::default(), report_ip: None, shadow: 0, tid0: None, deny: None, delivered: vec![], boot_bad: vec![] }
     }
     /// a peer sends a request to the node
     pub fn inject_request(&mut self, from: SocketAddrV4, requester: Id, rt: RequestTypeSpecific, ro: bool) {
@@ -1553,6 +1562,29 @@ impl<'a> Driver<'a> {
             }
             self.seq += 1;
             let seen_as = Some(self.report_ip.unwrap_or(self.s.addr));
+            if self.shadow != 0 {
+                let tid = Some(s.msg.transaction_id());
+                let pid = self.net.peers[i].id;
+                let extra: Option<(SocketAddrV4, MessageType)> = match self.shadow {
+                    1 => Some((SocketAddrV4::new(Ipv4Addr::new(10, 88, 8, 8), 8888), MessageType::Response(ResponseSpecific::Ping(PingResponseArguments { responder_id: pid })))),
+                    2 => Some((from, MessageType::Request(dht::RequestSpecific { requester_id: pid, request_type: RequestTypeSpecific::Ping }))),
+                    _ => match &req.request_type {
+                        RequestTypeSpecific::GetValue(g) => {
+                            let forged = if g.salt.is_some() || self.seq % 2 == 0 {
+                                PutRequestSpecific::PutMutable(PutMutableRequestArguments { target: g.target, v: b"forged value".to_vec().into_boxed_slice(), k: [7; 32], seq: 1000, sig: [9; 64], salt: g.salt.clone(), cas: None })
+                            } else {
+                                PutRequestSpecific::PutImmutable(PutImmutableRequestArguments { target: g.target, v: b"forged value".to_vec().into_boxed_slice() })
+                            };
+                            Some((from, MessageType::Request(dht::RequestSpecific { requester_id: pid, request_type: RequestTypeSpecific::Put(PutRequest { token: vec![1, 2, 3, 4].into_boxed_slice(), put_request_type: forged }) })))
+                        }
+                        _ => None,
+                    },
+                };
+                if let Some((sfrom, smt)) = extra {
+                    self.queue.push(InFlight { due: now + MS, from: sfrom, re: None, mt: smt, ro: false, ip: None, seq: self.seq, tid, legacy: false });
+                    self.seq += 1;
+                }
+            }
             self.queue.push(InFlight { due, from, re: s.key.clone(), mt: mt.clone(), ro, ip: seen_as, seq: self.seq, tid: Some(s.msg.transaction_id()), legacy: self.net.peers[i].legacy });
             if self.net.peers[i].mode == 2 || self.rng.below(100) < self.dup_pct {
                 self.seq += 1;
@@ -2166,6 +2198,7 @@ pub fn run(out: &mut Out, seed: u64, thorough: bool, replay: Option<&str>) {
         let size = d.s.last_snapshot.as_ref().map(|sn| sn.routing_table.len()).unwrap_or(0);
         if size == 0 {
             d.out.violation("C13", "live-bootstrap-not-joined", "every bootstrap server answers (700 ms round trip) but after 40 s the routing table is still empty: the node never adapts its request timeout to the late answers".into());
+            d.out.violation("C14", "answering-peers-never-learned", "every peer answers every request (700 ms round trip) and after 40 s none of them is in the routing table: late answers never teach the node the round trip time".into());
         }
         d.finish();
         d.out.mark_distinct(fnv(format!("N2{round}").as_bytes()));
@@ -3749,6 +3782,236 @@ pub fn run(out: &mut Out, seed: u64, thorough: bool, replay: Option<&str>) {
         d.lookup_and_check_closure(format!("get_imm t={}", hex(target.as_bytes())), &target);
         d.finish();
         d.out.mark_distinct(fnv(format!("K7{round}").as_bytes()));
+        d.s.shutdown();
+    }
+    // ---- Z7 (C16): the node's own put is in its store phase (the storing nodes are silent about it) when
+    //      get_mutable_most_recent starts: the lookup's requests get the transaction ids right after the put's.
+    //      The node closest to the target — asked first — is the only holder of the newest version
+    for round in 0..(if thorough { 3 } else { 2 }) {
+        t0 += 10_000_000_000_000;
+        let old = MutableItem::new(&key_from_seed(9), b"version one", 1, None);
+        let newest = MutableItem::new(&key_from_seed(9), b"version two", 2, None);
+        let target = *old.target();
+        let mut net = VNet::new(&mut rng, 5 + round, true);
+        for (j, p) in net.peers.iter_mut().enumerate() {
+            p.ignore_puts = true;
+            if j == 1 {
+                let mut b = *target.as_bytes();
+                b[19] ^= 1;
+                p.id = Id::from_bytes(b).expect("id");
+                p.muts.insert(target, (newest.value().to_vec(), *newest.key(), newest.seq(), *newest.signature()));
+            } else {
+                p.muts.insert(target, (old.value().to_vec(), *old.key(), old.seq(), *old.signature()));
+            }
+        }
+        let boot = vec![net.peers[0].addr];
+        let mut d = Driver::new(out, rng.next(), net);
+        d.begin("c", &boot, None, rng.next() % 1_000_000 + 1, t0);
+        d.run_for(2 * SEC, 10 * MS);
+        let v = format!("unrelated {round}").into_bytes();
+        d.api(format!("put_imm v={}", hex(&v)));
+        let mut guard = 0;
+        while !d.s.all_sent.iter().any(|x| x.key.as_deref().map(|k| k.contains("/put/")).unwrap_or(false)) && guard < 4000 {
+            d.pump(MS);
+            guard += 1;
+        }
+        let c = d.api(format!("get_mut_recent k={} salt=none", hex(key_from_seed(9).verifying_key().as_bytes())));
+        d.settle(20 * SEC, 10 * MS);
+        let got = d.results(c);
+        if !got.iter().any(|r| r.contains(":recent:") && r.contains("seq=2 ")) {
+            d.out.violation("C16", "newest-item-missed", format!("the node closest to the target holds seq 2 and answered in time — while a put of the same node was waiting for its acknowledgements — but get_mutable_most_recent returned {:?}", got.iter().map(|r| r.chars().take(100).collect::<String>()).collect::<Vec<_>>()));
+        }
+        d.finish();
+        d.out.mark_distinct(fnv(format!("Z7{round}").as_bytes()));
+        d.s.shutdown();
+    }
+    // ---- Z8 (C06): junk keeps arriving — one undecodable datagram every 10 ms — at a client whose peers have gone
+    //      silent.  A find_node, a put and a get issued meanwhile end when their requests expire, as they do
+    //      when nothing arrives
+    for round in 0..2 {
+        t0 += 10_000_000_000_000;
+        let net = VNet::new(&mut rng, 3, true);
+        let boot = vec![net.peers[0].addr];
+        let mut d = Driver::new(out, rng.next(), net);
+        d.begin("c", &boot, None, rng.next() % 1_000_000 + 1, t0);
+        d.run_for(3 * SEC, 10 * MS);
+        for p in d.net.peers.iter_mut() {
+            p.mode = 1;
+        }
+        let t = Id::from_bytes(d.rng.id20()).expect("id");
+        let calls = [d.api(format!("find_node t={}", hex(t.as_bytes()))), d.api("put_imm v=6a756e6b".into()), d.api(format!("get_imm t={}", hex(t.as_bytes()))), d.api("info".into())];
+        let stranger = SocketAddrV4::new(Ipv4Addr::new(10, 77, 7, 7), 7070);
+        for k in 0..(if round == 0 { 800 } else { 1500 }) {
+            d.run(format!("adv {}", 10 * MS));
+            let junk = match k % 3 { 0 => "6a756e6b".to_string(), 1 => "64313a7165".to_string(), _ => hex(&d.rng.bytes(1 + (k % 40))) };
+            d.run(format!("step from={} raw={junk}", addr_s(&stranger)));
+        }
+        for (c, what) in calls.iter().zip(["find_node", "put_immutable", "get_immutable", "info"]) {
+            if d.results(*c).is_empty() {
+                d.out.violation("C06", "call-hangs", format!("{what} has not returned after {} s during which an undecodable datagram arrived every 10 ms (every request it sent expired long ago)", if round == 0 { 8 } else { 15 }));
+                d.out.violation("C05", "junk-starves-node", format!("{what} has not returned after {} s of undecodable datagrams arriving every 10 ms", if round == 0 { 8 } else { 15 }));
+                break;
+            }
+        }
+        d.finish();
+        d.out.mark_distinct(fnv(format!("Z8{round}").as_bytes()));
+        d.s.shutdown();
+    }
+    // ---- Z9 (C13): a server restarts on its port under a new id while the node still lists its old id at that
+    //      address: the find_node requests it sends while joining again make the node list the new id too
+    for mode in ["s"] {
+        t0 += 10_000_000_000_000;
+        let net = VNet::new(&mut rng, 4, true);
+        let boot = vec![net.peers[0].addr];
+        let mut d = Driver::new(out, rng.next(), net);
+        d.begin(mode, &boot, None, rng.next() % 1_000_000 + 1, t0);
+        d.run_for(2 * SEC, 10 * MS);
+        let j = SocketAddrV4::new(Ipv4Addr::new(10, 55, 5, 5), 6881);
+        let id1 = Id::from_bytes(rng.id20()).expect("id");
+        let mut id2b = rng.id20();
+        id2b[0] = id1.as_bytes()[0] ^ 0x80;
+        let id2 = Id::from_bytes(id2b).expect("id");
+        d.inject_request(j, id1, RequestTypeSpecific::FindNode(FindNodeRequestArguments { target: id1 }), false);
+        d.run_for(200 * MS, 10 * MS);
+        d.run("snap".into());
+        let had_old = d.s.last_snapshot.as_ref().map(|sn| sn.routing_table.iter().any(|(i, a, _)| *i == id1 && *a == j)).unwrap_or(false);
+        d.run_for(30 * SEC, SEC);
+        d.inject_request(j, id2, RequestTypeSpecific::FindNode(FindNodeRequestArguments { target: id2 }), false);
+        d.run_for(200 * MS, 10 * MS);
+        d.inject_request(j, id2, RequestTypeSpecific::Ping, false);
+        d.run_for(200 * MS, 10 * MS);
+        d.run("snap".into());
+        if let Some(sn) = d.s.last_snapshot.clone() {
+            if had_old && !sn.routing_table.iter().any(|(i, a, _)| *i == id2 && *a == j) {
+                d.out.violation("C13", "rejoined-server-not-learned", format!("{} joined again under a new id ({}) 30 s after it had joined under {}: its find_node request did not make the node list the new id (a lookup of the new id cannot find it here)", addr_s(&j), hex(&id2.as_bytes()[..4]), hex(&id1.as_bytes()[..4])));
+            }
+        }
+        d.finish();
+        d.out.mark_distinct(fnv(format!("Z9{mode}").as_bytes()));
+        d.s.shutdown();
+    }
+    // ---- Z10 (C07, C08, C02): every request the node sends is shadowed, a millisecond later and before the genuine
+    //      reply, by (1) a bare response under its transaction id from another address, (2) a ping request of
+    //      the addressed peer under the same transaction id, (3) a put request of that peer for the requested
+    //      target with a forged value.  None of these is an answer: lookups still query every node the
+    //      genuine answers list, puts are acknowledged, readers are handed authentic values only
+    for shadow in [1u8, 2, 3] {
+        t0 += 10_000_000_000_000;
+        let mut net = VNet::new(&mut rng, 12, true);
+        let v = format!("shadowed {shadow}").into_bytes();
+        let item = MutableItem::new(&key_from_seed(9), b"genuine item", 4, Some(b"sh"));
+        for p in net.peers.iter_mut() {
+            p.imm.insert(imm_target(&v), v.clone());
+            p.muts.insert(*item.target(), (item.value().to_vec(), *item.key(), item.seq(), *item.signature()));
+        }
+        let boot = vec![net.peers[0].addr];
+        let mut d = Driver::new(out, rng.next(), net);
+        d.begin("c", &boot, None, rng.next() % 1_000_000 + 1, t0);
+        d.run_for(2 * SEC, 10 * MS);
+        d.shadow = shadow;
+        let t = Id::from_bytes(d.rng.id20()).expect("id");
+        d.lookup_and_check_closure(format!("find_node t={}", hex(t.as_bytes())), &t);
+        let t2 = Id::from_bytes(d.rng.id20()).expect("id");
+        d.lookup_and_check_closure(format!("get_peers ih={}", hex(t2.as_bytes())), &t2);
+        let pv = d.rng.bytes(30);
+        d.api(format!("put_imm v={} expect=ok prop=C08", hex(&pv)));
+        d.settle(20 * SEC, 10 * MS);
+        d.api(format!("get_imm t={} expect=some prop=C01", hex(imm_target(&v).as_bytes())));
+        d.settle(20 * SEC, 10 * MS);
+        d.api(format!("get_mut k={} salt={} seq=none expect=some prop=C01", hex(key_from_seed(9).verifying_key().as_bytes()), hex(b"sh")));
+        d.settle(20 * SEC, 10 * MS);
+        d.shadow = 0;
+        d.finish();
+        d.out.mark_distinct(fnv(format!("Z10{shadow}").as_bytes()));
+        d.s.shutdown();
+    }
+    // ---- F5 (C18): the first lookup of a reachable adaptive node is told a dead address, the lookups right after
+    //      it the true one: the node pings the true address too (the ping to the dead one is still out), is
+    //      confirmed there and becomes a server at the next refresh
+    for gap_ms in [60u64, 250] {
+        t0 += 10_000_000_000_000;
+        let net = VNet::new(&mut rng, 6, false);
+        let boot = vec![net.peers[0].addr];
+        let mut d = Driver::new(out, rng.next(), net);
+        d.reachable = true;
+        d.report_ip = Some(SocketAddrV4::new(Ipv4Addr::new(46, 9, 9, 9), 6881));
+        d.begin("c", &boot, Some(Ipv4Addr::new(45, 7, 7, 10)), rng.next() % 1_000_000 + 1, t0);
+        // until the bootstrap lookup has ended and the node has pinged the address it was told
+        let mut guard = 0;
+        while !d.s.all_sent.iter().any(|x| *x.to.ip() == Ipv4Addr::new(46, 9, 9, 9)) && guard < 3000 {
+            d.pump(MS);
+            guard += 1;
+        }
+        d.run_for(gap_ms * MS, 5 * MS);
+        d.report_ip = None;
+        for _ in 0..2 {
+            let t = Id::from_bytes(d.rng.id20()).expect("id");
+            d.api(format!("find_node t={}", hex(t.as_bytes())));
+        }
+        d.settle(20 * SEC, 10 * MS);
+        d.run_for(3 * SEC, 10 * MS);
+        d.api("info".into());
+        d.run("snap".into());
+        d.run_for(16 * 60 * SEC, SEC);
+        d.run_for(3 * SEC, 10 * MS);
+        d.run("snap".into());
+        if let Some(sn) = d.s.last_snapshot.clone() {
+            if sn.firewalled {
+                d.out.violation("C18", "reachable-still-firewalled", format!("the node is reachable at the address its peers report (they reported a dead one during its very first lookup, {gap_ms} ms earlier) but still considers itself firewalled: public_address={:?}", sn.public_address));
+            }
+            if !sn.server_mode {
+                d.out.violation("C18", "adaptive-never-server", format!("after 16 minutes a node that is reachable at the address its peers report is still in client mode (firewalled={}, public_address={:?})", sn.firewalled, sn.public_address));
+            }
+        }
+        d.finish();
+        d.out.mark_distinct(fnv(format!("F5{gap_ms}").as_bytes()));
+        d.s.shutdown();
+    }
+    // ---- M4 (C05, C06): more than twenty nodes answer a get_peers / get_signed_peers / get_mutable lookup with
+    //      values while the caller holds its stream without reading it: the node goes on answering pings and
+    //      serving its other callers
+    for kind in 0..3 {
+        t0 += 10_000_000_000_000;
+        let mut net = VNet::new(&mut rng, 45, true);
+        let ih = Id::from_bytes(rng.id20()).expect("id");
+        let item = MutableItem::new(&key_from_seed(9), b"m4", 4, None);
+        let sa = SignedAnnounce::new(&key_from_seed(33), &ih);
+        for p in net.peers.iter_mut() {
+            p.peers.insert(ih, vec![SocketAddrV4::new(Ipv4Addr::new(10, 8, 8, 8), 7000)]);
+            p.speers.insert(ih, vec![(*sa.key(), sa.timestamp(), *sa.signature())]);
+            p.muts.insert(*item.target(), (item.value().to_vec(), *item.key(), item.seq(), *item.signature()));
+        }
+        let boot = vec![net.peers[0].addr];
+        let mut d = Driver::new(out, rng.next(), net);
+        d.begin("s", &boot, None, rng.next() % 1_000_000 + 1, t0);
+        d.run_for(2 * SEC, 10 * MS);
+        let call = match kind {
+            0 => format!("get_peers ih={} mute=1", hex(ih.as_bytes())),
+            1 => format!("get_speers ih={} mute=1", hex(ih.as_bytes())),
+            _ => format!("get_mut k={} salt=none seq=none mute=1", hex(key_from_seed(9).verifying_key().as_bytes())),
+        };
+        d.api(call);
+        d.run_for(3 * SEC, 10 * MS);
+        let c1 = d.api("info".into());
+        let tt = Id::from_bytes(d.rng.id20()).expect("id");
+        let c2 = d.api(format!("find_node t={}", hex(tt.as_bytes())));
+        let stranger = SocketAddrV4::new(Ipv4Addr::new(10, 44, 4, 4), 4444);
+        let sid = Id::from_bytes(d.rng.id20()).expect("id");
+        let before = d.s.all_sent.len();
+        d.inject_request(stranger, sid, RequestTypeSpecific::Ping, false);
+        d.settle(20 * SEC, 10 * MS);
+        let answered = d.s.all_sent[before..].iter().any(|x| x.to == stranger);
+        if d.s.alive && !answered {
+            d.out.violation("C05", "ping-unanswered", "a server whose caller holds an unread stream of lookup results did not answer a ping".into());
+        }
+        for (c, what) in [(c1, "info"), (c2, "find_node")] {
+            if d.results(c).is_empty() {
+                d.out.violation("C06", "call-hangs", format!("{what} did not return within 20 s while another caller holds an unread stream of lookup results"));
+                d.out.violation("C05", "datagram-stalls-node", format!("{what} did not return within 20 s after more than twenty nodes answered a lookup whose caller is not reading"));
+            }
+        }
+        d.finish();
+        d.out.mark_distinct(fnv(format!("M4{kind}").as_bytes()));
         d.s.shutdown();
     }
     // ---- Z1 (C06): a node whose address has port 0 — nothing can be sent there — is among the closest to the
